@@ -12,7 +12,7 @@ PLATFORMS = ["xen", "ppc64le", "uefi", "Xen-PV", "xen pv"]      # (a blank INSID
 IMAGE_NAMES = ["boot.iso", "kernel", "initrd", "Kernel", "efiboot.img", "upgrade", "boot iso", "BOOT.ISO", "x.y-z_0", "initrd.IMG"]
 PATHS = ["Packages", ".", "repo", "src repo", "images/boot.iso", "a/b/c", "ünï/côde", "x" * 40, "Server/os",
          "a=b", "c:d", "semi;colon", "has # hash", "[bracket]", "with = and : both", "back\\slash", "UPPER/lower",
-         "Storage Server ;EUS", "x #y", "a ; b # c", "tail ;", "AppStream/Packages/", "BaseOS/", "repo//", "./Packages", "a/../b"]
+         "Storage Server ;EUS", "x #y", "a ; b # c", "tail ;", "AppStream/Packages/", "BaseOS/", "repo//", "./Packages", "a/../b", "", ""]
 
 
 def gen_content(rng, max_top=3, max_children=3, src=None, float_ts=False):
